@@ -403,6 +403,22 @@ def main(argv=None):
                        "smt2": r["smt2"][:20000], "replay_cmd": "./check %s --tier %s" % (prop, tier)}
                 json.dump(rec, open(fn, "w"), indent=1, default=str)
                 violations.append((o.name, fn, True))
+    # the replay driver's own scenarios run on EVERY run (not only after a failed obligation): they exercise the real functions
+    # against the same laws, so a failing scenario is a failing input on the real code (a bounded, native part: never counted as proof)
+    scen = None
+    if not violations and os.path.exists(os.path.join(ROOT, "replay", prop + ".py")):
+        class _O:
+            name, kind, line, info = "%s::native-scenarios" % prop, "native", 0, ""
+        rp = replay(prop, _O, None, tier)
+        scen = {"detail": str(rp.get("detail"))[:300], "reproduced": bool(rp.get("reproduced")), "crashed": bool(rp.get("crashed"))}
+        if rp.get("crashed") or "no verdict" in str(rp.get("detail")) or "driver failed" in str(rp.get("detail")):
+            print("note: replay driver did not complete its scenarios: %s" % str(rp.get("detail"))[:200])
+        elif rp.get("reproduced"):
+            fn = os.path.join(ROOT, "replays", prop, "native-scenarios.json")
+            json.dump({"property": prop, "obligation": _O.name, "kind": "native", "replay": rp,
+                       "note": "no proof obligation failed; the failing input was found by the scenarios of the replay driver on the real code",
+                       "replay_cmd": "./check %s --tier %s" % (prop, tier)}, open(fn, "w"), indent=1, default=str)
+            violations.append((_O.name + ": " + str(rp.get("detail"))[:120], fn, True))
     for nv in native_viol:
         k = is_known(nv["name"], nv.get("witness", ""))
         if k:
@@ -449,6 +465,8 @@ def main(argv=None):
            "known_findings_hit": [{"finding": k["id"], "obligation": n} for k, n in known_hits],
            "unknown_obligations": [o.name for o, r in unknown],
            "engine_notes": sorted(set(n for e in engines for n in e.notes))[:40]}
+    if scen is not None:
+        cov["native_scenarios"] = scen
     if native is not None:
         cov["bounded"] = {k: v for k, v in native.items() if k not in ("violations",)}
         cov["evaluations"] = native.get("evaluations", 0)
